@@ -14,12 +14,22 @@ for D in "$ROOT"/seeded/C*-m*; do
   line=$("$ROOT/tools/seed_check.sh" "$D" "$TIER" 2>&1 | grep " $TIER: exit=" | tail -1)
   rc=$(echo "$line" | sed 's/.*exit=\([0-9]*\).*/\1/'); keys=$(echo "$line" | sed 's/.*keys=//')
   prop=$(python3 -c "import json;print(json.load(open('$D/meta.json'))['property'])")
-  python3 - "$D" "$prop" "$TIER" "$rc" "$keys" "$(git -C /repo rev-parse --short HEAD)" "$(git -C "$ROOT" rev-parse --short HEAD)" <<'PY'
+  # a change filed under one property may be a violation of a neighbouring one (e.g. cross-call state is C03's business):
+  # seeded/<id>/also_check names further checks to try when the property's own check stays silent
+  by="$prop"
+  if [ "$rc" != "1" ] && [ -f "$D/also_check" ]; then
+    for P in $(cat "$D/also_check"); do
+      line2=$("$ROOT/tools/seed_check.sh" "$D" "$TIER" "$P" 2>&1 | grep " $TIER: exit=" | tail -1)
+      rc2=$(echo "$line2" | sed 's/.*exit=\([0-9]*\).*/\1/')
+      if [ "$rc2" = "1" ]; then rc=1; keys=$(echo "$line2" | sed 's/.*keys=//'); by="$P (the check of $prop stays silent)"; break; fi
+    done
+  fi
+  python3 - "$D" "$prop" "$TIER" "$rc" "$keys" "$(git -C /repo rev-parse --short HEAD)" "$(git -C "$ROOT" rev-parse --short HEAD)" "$by" <<'PY'
 import json,sys
-d,prop,tier,rc,keys,rh,vh=sys.argv[1:]
-json.dump({"check":f"./run {prop} {tier}","exit":int(rc) if rc.isdigit() else None,"detected":rc=="1","violation_keys":keys,"repo_head":rh,"verif_head":vh,"cmd":"tools/seed_check.sh (git -C /repo apply patch.diff; ./run; git -C /repo checkout -- .)"},open(d+"/detection.json","w"),indent=1)
+d,prop,tier,rc,keys,rh,vh,by=sys.argv[1:]
+json.dump({"check":f"./run {by.split()[0]} {tier}","detected_by":by,"exit":int(rc) if rc.isdigit() else None,"detected":rc=="1","violation_keys":keys,"repo_head":rh,"verif_head":vh,"cmd":"tools/seed_check.sh (git -C /repo apply patch.diff; ./run; git -C /repo checkout -- .)"},open(d+"/detection.json","w"),indent=1)
 PY
-  echo "| $n | $prop | $TIER | $([ "$rc" = "1" ] && echo yes || echo NO) | \`$(echo $keys | cut -c1-160)\` |" >> "$OUT.tmp"
+  echo "| $n | $by | $TIER | $([ "$rc" = "1" ] && echo yes || echo NO) | \`$(echo $keys | cut -c1-160)\` |" >> "$OUT.tmp"
   echo "$n: exit=$rc"
 done
 mv "$OUT.tmp" "$OUT"
